@@ -264,6 +264,8 @@ pub trait BackendOps: Sync {
     /// Mixed workload of `threads` harness threads on one shared Module / keys / ciphertexts.
     /// With `cfg = None` the per-thread op lists run one after the other on the calling thread.
     fn shared(&self, spec: &SharedSpec, cfg: Option<sched::Config>) -> RunResult;
+    /// SHARED with plain std threads and no scheduler (engine B / Miri).
+    fn shared_unsync(&self, spec: &SharedSpec) -> Result<RunOut, String>;
     /// C12 inventory of single-call ops (see c12/ops.rs)
     fn core_op(&self, op: &str, shape: &crate::c12::ops::Shape, w: &Window) -> RunResult;
     fn core_ops(&self) -> &'static [&'static str];
@@ -603,6 +605,15 @@ macro_rules! backend_impl {
                 }
 
                 fn shared(&self, spec: &SharedSpec, cfg: Option<sched::Config>) -> RunResult {
+                    shared_impl(spec, cfg, false)
+                }
+                fn shared_unsync(&self, spec: &SharedSpec) -> Result<RunOut, String> {
+                    shared_impl(spec, None, true).0
+                }
+            }
+
+            fn shared_impl(spec: &SharedSpec, cfg: Option<sched::Config>, unsync: bool) -> RunResult {
+                {
                     use poulpy_bin_fhe::bdd_arithmetic::Cmux;
                     use poulpy_core::layouts::GLWEPlaintext;
                     use poulpy_core::{GLWEDecrypt, GLWEEncryptSk};
@@ -686,6 +697,20 @@ macro_rules! backend_impl {
                     };
                     let mut results: Vec<u64> = vec![0; spec.threads];
                     let (r, rep) = match cfg {
+                        None if unsync => {
+                            let lists = &lists;
+                            let run_list = &run_list;
+                            let r = crate::util::catch(|| {
+                                std::thread::scope(|scope| {
+                                    for (t, (slot, scratch)) in results.iter_mut().zip(scratches.iter_mut()).enumerate() {
+                                        scope.spawn(move || {
+                                            *slot = run_list(&lists[t], scratch);
+                                        });
+                                    }
+                                });
+                            });
+                            (r, None)
+                        }
                         None => {
                             let r = crate::util::catch(|| {
                                 for (t, l) in lists.iter().enumerate() {
